@@ -488,20 +488,8 @@ func (r *runner) close() {
 	}
 }
 
-// sharedFor maps a drawn document selector to a shared document for goroutine g.
-func (r *runner) sharedFor(g, d int) int {
-	if r.c.SharedTxn && r.c.Disjoint {
-		// transaction users write only "their" shared document; nobody else writes those
-		users := 0
-		for _, u := range r.c.TxnUser {
-			if u {
-				users++
-			}
-		}
-		_ = users
-	}
-	return d % len(r.shared)
-}
+// sharedFor maps a drawn document selector to a shared document.
+func (r *runner) sharedFor(g, d int) int { return d % len(r.shared) }
 
 // writesShared tells whether goroutine g may write shared documents in this case.
 func (r *runner) writesShared(g int) bool {
